@@ -131,6 +131,17 @@ EmitNum(x) ==
   \/ Out(S1("roundtrip", x, NoArg))
   \/ Out(S1("casts", x, NoArg))
 EmitNumPairs(x, y) == Out([op |-> "num_cmp", a |-> [x |-> NumOf(x), y |-> NumOf(y)]])
+\* exhaustive 16-bit sweeps: every unsigned and signed 16-bit integer (all of the 1- and 2-byte forms and
+\* the boundary into the 4-byte form), and every binary64 whose low 48 bits are zero (every sign, every
+\* exponent, NaN / infinity patterns, the top four mantissa bits)
+Sweep16 ==
+  \E hi \in 0..255, lo \in 0..255 :
+     \/ Out([op |-> "num", a |-> [n |-> N("u", <<0, 0, 0, 0, 0, 0, hi, lo>>)]])
+     \/ Out([op |-> "num", a |-> [n |-> N("i", <<IF hi >= 128 THEN 255 ELSE 0, IF hi >= 128 THEN 255 ELSE 0, IF hi >= 128 THEN 255 ELSE 0,
+                                                  IF hi >= 128 THEN 255 ELSE 0, IF hi >= 128 THEN 255 ELSE 0, IF hi >= 128 THEN 255 ELSE 0, hi, lo>>)]])
+     \/ Out([op |-> "num", a |-> [n |-> N("f", <<hi, lo, 0, 0, 0, 0, 0, 0>>)]])
+     \/ Out([op |-> "num_cmp", a |-> [x |-> N("f", <<hi, lo, 0, 0, 0, 0, 0, 0>>), y |-> N("i", <<255, 255, 255, 255, 255, 255, 255 - (hi \div 2), lo>>)]])
+     \/ Out([op |-> "num_cmp", a |-> [x |-> N("u", <<0, 0, 0, 0, 0, 0, hi, lo>>), y |-> N("f", <<64 + (hi \div 64), (hi * 4) % 256, lo, 0, 0, 0, 0, 0>>)]])
 EmitNumDecode == \E p \in NumPayloads : Out([op |-> "num_decode", raw |-> <<p>>, a |-> NoArg])
 
 \* From conversions into Value: signed -> i, unsigned -> u, f32 widened exactly, unit -> null,
@@ -191,7 +202,7 @@ Emit ==
 EmitBuild ==
   /\ stage = "start" /\ Family = "build"
   /\ EmitBuildScripts
-EmitDecode == (stage = "start" /\ Family = "num" /\ EmitNumDecode) \/ (stage = "start" /\ Family = "codec" /\ EmitConv)
+EmitDecode == (stage = "start" /\ Family = "num" /\ EmitNumDecode) \/ (stage = "start" /\ Family = "sweep16" /\ Sweep16) \/ (stage = "start" /\ Family = "codec" /\ EmitConv)
 Next == PickFirst \/ PickSecond \/ Emit \/ EmitBuild \/ EmitDecode
 Spec == Init /\ [][Next]_vars
 
